@@ -77,7 +77,7 @@ def space_games(sp, kind, cfg):
 
 def plan(ctx):
     out = []
-    sp0 = ["S2", "P2", "P3", "T3", "T4"] + (["T5", "D7", "D8", "D8x8"] if ctx.thorough else ["T5|V2", "D7b1", "D8b1"])
+    sp0 = ["S2", "P2", "P3", "T3", "T4"] + (["T5", "D7", "D8", "D8x8"] if ctx.thorough else ["T5|V2", "D7b1", "D8b1"]) + ["PK"]
     for sp in sp0:
         out.append((sp, "K0", "plain"))
     for K in ["K1", "K2", "K3", "K4", "K5", "K6", "K7", "K8", "KG0", "K9", "K10"]:
@@ -94,7 +94,7 @@ def plan(ctx):
     return out
 
 
-PARTS = {"T5|V2": 4, "D7b1": 4, "D8b1": 8, "S2": 4, "P2": 6, "P3": 8, "T3": 8, "T4": 24, "T5": 64, "D7": 24, "D8": 64, "D8x8": 64, "T3z": 2, "S2z": 2, "T3|V6": 2}
+PARTS = {"PK": 2, "T5|V2": 4, "D7b1": 4, "D8b1": 8, "S2": 4, "P2": 6, "P3": 8, "T3": 8, "T4": 24, "T5": 64, "D7": 24, "D8": 64, "D8x8": 64, "T3z": 2, "S2z": 2, "T3|V6": 2}
 
 
 def matrix(cfg):
